@@ -42,7 +42,11 @@ RULE = (
     "{0..40,54..56,100,254,255} x {zeros,ones,random,ramp} x random TPCI bits + per-service field/tail boundary "
     "patterns, + Hypothesis; non-trivial = recognised service at a length other than its minimal valid length, or "
     "a decode that raised; enumerations distinct by construction, generated cases hashed"
+    "; thorough tier only: atheris/libFuzzer campaigns (vk/fuzz.py, fuzz/c04_target.py; 8 processes, half from an empty corpus, half from "
+    "a seed corpus of valid inputs, -runs budget, -seed derived from VERIF_SEED) with this same oracle inside the target: input = the APDU octets; each "
+    "execution counts as one evaluation, it is non-trivial by the same rule (recognised service at a non-minimal length or a decode that raised, measured in the target), distinct by input hash"
 )
+FUZZ_RUNS = 100_000  # executions per campaign (thorough tier)
 ASSUMPTIONS = [
     "a code is 'recognised' iff the reference table gives it a PDU definition (928 of 1024 codes; A_RouterStatus_* "
     "codes 0x3CD-0x3CF, undefined user/escape codes and 'response to basic restart' 0x3A0|r<<1 are not); each "
@@ -53,7 +57,9 @@ ASSUMPTIONS = [
     "not traced - for them termination is covered by the enumeration itself completing",
     "the cEMI mapping (UnsupportedAPCIService -> UnsupportedCEMIMessage, ConversionError -> CouldNotParseCEMI) is "
     "sampled on group-addressed L_Data.ind frames only",
-    "no atheris campaign (fuzz/ is outside this builder's file set); Hypothesis binary + structure-aware sets instead",
+    "thorough tier: the atheris campaigns judge every execution with judge() + check_cemi(); their step budget is the "
+    "sys.monitoring one of vk/budget.py (4x the settrace limit, same >= 20x headroom), a hit is bucketed C04:step-budget and "
+    "re-judged under the settrace budget on replay; without atheris the tier runs without them (coverage.fuzz = unavailable)",
 ]
 
 
@@ -259,6 +265,10 @@ def run(ctx) -> None:
     rng = random.Random(ctx.seed)
     for s, raw in list(G.valid_apdus(rng, 1))[:: max(1, len(T.SERVICES) // 5)][:6]:
         ctx.sample({"service": s.name, "valid_apdu": raw.hex()})
+    if not ctx.quick:  # thorough tier only: coverage-guided campaigns, oracle inside the target
+        from vk.fuzz import run_fuzz
+
+        run_fuzz(ctx, PROPERTY, runs=FUZZ_RUNS, jobs=8)
 
 
 def replay(ctx, case) -> None:
